@@ -105,6 +105,44 @@ NOT_APPLICABLE = {
     "C17": "quantifies over thread schedules and run-to-run repeatability: Kani has no thread support, Verus reasons about concurrency only through its own permission types and there is no concurrent code to annotate (DESIGN.md section 7)",
 }
 
+# which unit / harness family discharges each shared contract on the real code
+CONTRACT_PROVED_BY = {
+    "reader.checkpoint": "Kani C14 harnesses (parser::reader::verif_hook)", "reader.rollback": "Kani C14 harnesses", "reader.commit": "Kani C14 harnesses",
+    "parser.decode_picture": "Verus unit `picture`", "parser.decode_macroblock": "Verus unit `macroblock`", "parser.decode_block": "Verus unit `block`",
+    "parser.decode_gob": "Verus unit `gob`", "rle.inverse_rle": "Verus unit `rle`", "mvd_pred.predict_candidate": "Verus unit `mvd_pred`",
+    "mvd_pred.mv_decode": "Verus unit `mvd_pred`", "gather.gather": "Verus unit `gather`", "idct.idct_channel": "Verus unit `idct`",
+}
+
+STATE_FNS = ["h263::decoder::state::H263State::{new,is_sorenson,get_last_picture,get_reference_picture,cleanup_buffers,parse_picture,decode_next_picture}",
+             "h263::decoder::picture::DecodedPicture::{new,as_header,format,as_luma,as_luma_mut,as_chroma_b,as_chroma_b_mut,as_chroma_r,as_chroma_r_mut,luma_samples_per_row,chroma_samples_per_row,as_yuv}",
+             "h263::types::{SourceFormat::into_width_and_height, PictureTypeCode::{is_any_pbframe,is_disposable}, MacroblockType::{is_inter,is_intra,has_fourvec,has_quantizer}}",
+             "h263::error::Error::{is_macroblock_error,is_gob_error}"]
+VERUS_NOTE = "trusted: Verus/z3, rustc; extraction tool tools/rsx.py (token-exact copy + listed rewrites R0,R4,R5,R6,R7,R9); hand-written prelude contracts/verus/h263_prelude.vrs (A-CORE assume_specifications, A-BITFLAGS model of the bitflags types, A-READER opaque reader with ghost observers); contracts of callees marked STUB are assumed here and proved in their own unit (evidence.trusted_base lists every one)"
+
+PROPS["C01"] = dict(
+    level="proof", engine="verus+kani",
+    verus=[dict(unit="state")],
+    functions=STATE_FNS,
+    level_text="deductive proof (Verus) of the real text of decode_next_picture (350 lines, lambda-lifted), the H263State/DecodedPicture methods and the type helpers: every arithmetic operation, index, slice, division, unwrap and callee precondition on the decode path is discharged for ALL header values, picture sizes, macroblock counts, bit strings and decoder histories (representation invariant wf), and the macroblock loop carries a decreases measure (remaining bits), so it terminates; callee kernels and parsers are verified against the same shared contracts in their own units. One open known finding (D12: HalfPel overflow in UMV+PLUSPTYPE mode)",
+    level_note=VERUS_NOTE + "; A-READ: the byte source is finite; A-F32-TOTAL: float arithmetic never traps",
+    assumptions=["A-READER: reader operations by contract (C14 proves them on the real reader for bounded buffers)", "A-CORE, A-BITFLAGS, A-CAP (see DESIGN.md section 6)", "allocation failure excluded (property statement)"],
+)
+PROPS["C04"] = dict(
+    level="proof", engine="verus",
+    verus=[dict(unit="state")],
+    functions=STATE_FNS[:1],
+    level_text="deductive proof (Verus) over the abstract state (last picture, reference picture) of the real H263State methods: new / getters / cleanup_buffers / decode_next_picture each carry a postcondition over the WHOLE view, for every decoder state satisfying the representation invariant - hence for every history of accepted pictures, rejected pictures and clean-ups, every temporal reference value (incl. equal to the reference's and wrapped) - unbounded",
+    level_note=VERUS_NOTE + "; HashMap modelled by vstd's map axioms for u16 keys; HashMap::remove_entry by assume_specification",
+    assumptions=["parser contracts assumed (the disposable picture type code and macroblock syntax selection are obligations of the picture / macroblock units)"],
+)
+PROPS["C05"] = dict(
+    level="proof", engine="verus",
+    verus=[dict(unit="state")],
+    functions=STATE_FNS[:1] + ["h263::parser::reader::H263Reader::with_transaction (text instantiated by R5)"],
+    level_text="deductive proof (Verus): `Err ==> *final(self) == *old(self)` for the lifted body of decode_next_picture (all fields incl. the picture map) on every path, and `Err ==> reader position == position before the call` for the transaction wrapper (the text of with_transaction instantiated with the body), for all inputs and histories; the reader-side clauses (rollback restores the position, buffered bytes are retained, append behaves like all-at-once) are Kani obligations of C14",
+    level_note=VERUS_NOTE + "; determinism of a &mut self method without interior mutability or statics is the premise of the retry clause (mechanical scan)",
+    assumptions=["reader checkpoint/rollback/commit by contract (A-READER)", "retry/append clause relies on the reader contract for a growing source (C14 harness two_phase)"],
+)
 PROPS["C07"] = dict(
     level="proof",
     engine="kani+verus",
